@@ -12,7 +12,8 @@ THEOREMS = [(M, "NQ.C13." + n) for n in [
     "run_apps_other", "isolation", "stop_releases", "stop_keeps_others", "rejected_unchanged",
     "double_init_rejected", "alloc_fresh",
     "inv_tick", "tick_subs_app", "tick_isolation", "schedule_isolation", "inv_istep", "reachable_interleaved",
-    "isolation_interleaved"]]
+    "isolation_interleaved", "abort_state", "inv_abort", "inv_abortMid", "qfree_atomic", "reachable_with_aborts",
+    "executors_independent", "inv_mapply"]]
 TRANSLATORS = []
 LEVEL_TEXT = ("Lean theorems about the multi-application layer of Model/Exec.lean: the invariant (injective map "
               "(app, virtual) -> physical across all applications; used = mapped + held by the link layer; held "
@@ -22,6 +23,8 @@ LEVEL_TEXT = ("Lean theorems about the multi-application layer of Model/Exec.lea
               "environment hypothesis), hence after every history of any length (induction over the op list); "
               "the same for histories in which subroutines of several applications are in flight at once and are "
               "resumed in any order, one instruction at a time (reachable_interleaved, schedule_isolation); "
+              "aborts of suspended subroutines preserve it (inv_abort, inv_abortMid, qfree_atomic); executors are "
+              "independent (executors_independent); "
               "isolation (an operation of application a leaves every b != a unchanged); stop releases all qubits "
               "and memory and the same id can be registered again; rejected registrations change nothing. "
               "Tie: differential correspondence of random/exhaustive histories (direct calls and QNodeController "
@@ -82,7 +85,9 @@ def run(ctx):
                 "every 4th through the QNodeController message handlers; exhaustive sequences over an 11-op alphabet "
                 "(2 apps, 2+1 qubits) to depth 3 (quick) / 4 (thorough); interleaved histories: 2-3 subroutines of "
                 "different applications in flight, resumed one instruction at a time in random order (and all "
-                "35 interleavings of two fixed subroutines), life-cycle operations in between; non-trivial = at least one qubit was "
+                "35 interleavings of two fixed subroutines), life-cycle operations in between; crash/abort histories "
+                "(a suspended subroutine dropped between instructions or at the yield inside qfree's reset hook, "
+                "the hook raising once, then stop/re-register/allocate all); 2-3 executors in one process; non-trivial = at least one qubit was "
                 "mapped at some point; distinct by history JSON")
     rng = ctx.rng
     drv = ctx.driver
@@ -98,7 +103,7 @@ def run(ctx):
         for o, st in zip(sc["ops"], model[:len(real)]):
             r = st["r"]
             kind = None
-            if o["k"] == "tick":
+            if o["k"] in ("tick", "hooktick", "abort"):
                 kind = r.get("kind") or r.get("o")
             elif "fault" in r and r["fault"]:
                 kind = r["fault"]["kind"]
@@ -153,7 +158,7 @@ def run(ctx):
                     ops.append(o)
             sc = H.fix_keeps({"hw": False, "apps": [0, 1], "addrs": [1], "ops": ops})
             check(sc, "exhaustive")
-            if len(res.failures) >= 5:
+            if len(res.failures) >= 5 or len(res.disagreements) >= 5:
                 return res
 
     # subroutines of different applications in flight at the same time
@@ -165,20 +170,47 @@ def run(ctx):
         check({"hw": False, "apps": [0, 1], "addrs": [0], "ops": [
             {"k": "init", "a": 0, "n": 2}, {"k": "init", "a": 1, "n": 2},
             {"k": "spawn", "a": 0, "p": sub_a}, {"k": "spawn", "a": 1, "p": sub_b}] + ticks}, "interleaved")
-    n_par = 8000 if ctx.thorough else 900
-    for k in range(n_par):
-        check(H.par_scenario(rng, rng.choice([10, 20, 40])), "interleaved")
-        if len(res.failures) >= 5:
+        if len(res.failures) >= 5 or len(res.disagreements) >= 5:
+            return res
+    # crash/abort points: subroutines dropped between instructions or at the yield point inside qfree's
+    # reset hook, the hook raising once; then stop / re-register / allocate everything again
+    al = [["set"] + q0 + [0], ["qalloc"] + q0, ["set", 2, 1, 1], ["qalloc", 2, 1]]
+    for mid in (True, False):
+        for hook in (False, True):
+            last = {"k": "hooktick", "i": 0} if hook else {"k": "abort", "i": 0, "mid": mid}
+            check({"hw": False, "apps": [0, 1], "addrs": [0], "ops": [
+                {"k": "init", "a": 0, "n": 2}, {"k": "init", "a": 1, "n": 1},
+                {"k": "sub", "a": 0, "fuel": 20, "or": [], "p": al},
+                {"k": "sub", "a": 1, "fuel": 20, "or": [], "p": al[:2]},
+                {"k": "spawn", "a": 0, "p": [["set", 2, 1, 1], ["qfree", 2, 1], ["set", 0, 0, 1]]},
+                {"k": "tick", "i": 0}, last, {"k": "stop", "a": 0}, {"k": "stop", "a": 1},
+                {"k": "init", "a": 0, "n": 2}, {"k": "sub", "a": 0, "fuel": 20, "or": [], "p": al}]}, "abort")
+    n_abort = 3500 if ctx.thorough else 400
+    for k in range(n_abort):
+        check(H.abort_scenario(rng, rng.choice([10, 20, 40])), "abort")
+        if len(res.failures) >= 5 or len(res.disagreements) >= 5:
+            return res
+    # several executors in one process
+    n_multi = 2000 if ctx.thorough else 250
+    for k in range(n_multi):
+        check(H.multi_scenario(rng, rng.choice([15, 30, 60])), "multi-executor")
+        if len(res.failures) >= 5 or len(res.disagreements) >= 5:
             return res
 
-    n_walks = 12000 if ctx.thorough else 1000
+    n_par = 6000 if ctx.thorough else 500
+    for k in range(n_par):
+        check(H.par_scenario(rng, rng.choice([10, 20, 40])), "interleaved")
+        if len(res.failures) >= 5 or len(res.disagreements) >= 5:
+            return res
+
+    n_walks = 9000 if ctx.thorough else 600
     for k in range(n_walks):
         msg = k % 4 == 3
         g = H.Gen(rng, encodable=msg)
         sc = g.c13_scenario(rng.choice([5, 10, 20, 40]), msg=msg)
         sc = H.fix_keeps(sc)
         check(sc, "walk")
-        if len(res.failures) >= 5:
+        if len(res.failures) >= 5 or len(res.disagreements) >= 5:
             break
     return res
 
